@@ -140,8 +140,7 @@ def produce_partition_arity(ex, st, v):
     return V(INT, z3.If(v.t < i(2), i(3), z3.If(v.t <= i(4), i(4), z3.If(v.t <= i(7), i(5), i(7)))))
 
 
-@contract(MOD + ":SendProduceReqHandler.handle_response", ["C02", "C01"])
-def _(c):
+def _handle_response(c, fatal_clause=False):
     c.self_("SendProduceReqHandler")
     c.param("response", Ref("ProduceResponse"))
     c.bind("TopicPartition", tp_ctor)
@@ -175,6 +174,20 @@ def _(c):
         ("set", "$open", "$open - 1"),
     ])
     c.hook("before", "batch.failure", [
+        # C16 "after a fatal error (fencing, sequence violation, transactional-id authorization) every later transactional call
+        # and every pending send fails and nothing more is written": when the partition leader reports one of them for a batch
+        # of a transactional producer, failing that batch's futures is not enough. It is all the code does: a recorded finding
+        # (known_findings.txt), proved to be confined to replies that carry one of the three codes
+    ] + ([
+        # reply_carries_a_fatal_code(response) is *defined* as "some partition entry of the reply has error code 45, 47 or 53"
+        # (the region of the recorded finding); this is that definition unfolded at the entry the loop is looking at - written
+        # out by hand because the solvers instantiate the quantified form erratically (17 s or 8 minutes for the same query)
+        ("assume", "implies(not reply_carries_a_fatal_code(response),"
+                   " partition_info[1] != 45 and partition_info[1] != 47 and partition_info[1] != 53)"),
+        ("assert", "a-fatal-error-in-a-produce-reply-is-not-only-this-batchs-failure",
+         "implies(self._sender._txn_manager is not None and self._sender._txn_manager.transactional_id is not None,"
+         " error != InvalidProducerEpoch and error != OutOfOrderSequenceNumber and error != TransactionalIdAuthorizationFailed)"),
+    ] if fatal_clause else []) + [
         ("assert", "idempotent-producer-never-fails-a-retriable-error",
          "implies(self._sender._txn_manager is not None, not error.retriable)"),
         ("set", "$open", "$open - 1"),
@@ -184,6 +197,20 @@ def _(c):
         ("assert", "the-answered-batch-is-what-is-retried", "a0 == batch"),
         ("set", "$open", "$open - 1"),
     ])
+
+
+contract(MOD + ":SendProduceReqHandler.handle_response", ["C02", "C01"])(lambda c: _handle_response(c))
+# the same function for C16, with the one clause C16 adds (a recorded finding, see the comment at the clause)
+contract(MOD + ":SendProduceReqHandler.handle_response", ["C16"], variant="fatal-errors")(lambda c: _handle_response(c, True))
+
+
+@specfn("reply_carries_a_fatal_code")
+def reply_carries_a_fatal_code(ex, st, resp):
+    """some partition entry of the Produce reply carries INVALID_PRODUCER_EPOCH (47), OUT_OF_ORDER_SEQUENCE_NUMBER (45) or
+    TRANSACTIONAL_ID_AUTHORIZATION_FAILED (53): an uninterpreted predicate of the reply object, unfolded by hand where used"""
+    import z3
+    f = z3.Function("reply_carries_a_fatal_code", resp.t.sort(), z3.BoolSort())
+    return V(BOOL, f(resp.t))
 
 
 @specfn("none_int")
